@@ -358,6 +358,85 @@ pub fn merged_with_search_only_sequence(b: &Built, st: &StateTable<u32>, toks: &
     Some(false)
 }
 
+/// All (stack, position) configurations the search can be in after `seq`, i.e. replaying it with an
+/// optional reduction under the real lookahead before each repair and after the last one.
+pub fn search_semantics_configs(b: &Built, st: &StateTable<u32>, toks: &[TIdx<u32>], cfg: &Cfg, pos: usize, seq: &[Rep]) -> Vec<(Cfg, usize)> {
+    let grm = &b.grm;
+    let eof = grm.eof_token_idx();
+    let mut out: Vec<(Cfg, usize)> = vec![];
+    let mut seen: HashSet<(Vec<StIdx<u32>>, usize, usize)> = HashSet::new();
+    let mut work: Vec<(Cfg, usize, usize)> = vec![(cfg.clone(), pos, 0)];
+    while let Some((c, p, k)) = work.pop() {
+        if !seen.insert((c.stack.clone(), p, k)) || seen.len() > 20_000 {
+            continue;
+        }
+        let la = if p < toks.len() { toks[p] } else { eof };
+        let mut red = c.clone();
+        if red.feed(grm, st, la) == Step::Error && red.stack != c.stack {
+            work.push((red, p, k));
+        }
+        if k == seq.len() {
+            out.push((c, p));
+            continue;
+        }
+        match &seq[k] {
+            Rep::Insert(t) => {
+                let mut c2 = c.clone();
+                if c2.feed(grm, st, TIdx(*t)) == Step::Shifted {
+                    work.push((c2, p, k + 1));
+                }
+            }
+            Rep::Delete(i) => {
+                if *i == p && p < toks.len() {
+                    work.push((c, p + 1, k + 1));
+                }
+            }
+            Rep::Shift(i) => {
+                if *i == p && p < toks.len() {
+                    let mut c2 = c.clone();
+                    if c2.feed(grm, st, toks[p]) == Step::Shifted {
+                        work.push((c2, p + 1, k + 1));
+                    }
+                }
+            }
+        }
+    }
+    out
+}
+
+/// Is the presence of the plain-valid but not-best-reach sequence `x` among the reported ones explained
+/// by the known search/replay divergence? The search merges nodes by (stack, position) under ITS
+/// semantics and ranks a merged group by its first member: `x` survives ranking if, under the search's
+/// semantics, it reaches the configuration that some best-reach sequence `m` reaches (directly or after
+/// up to two common shifts), although replayed plainly it gets less far.
+pub fn merges_with_best_reach_sequence(b: &Built, st: &StateTable<u32>, toks: &[TIdx<u32>], cfg: &Cfg, pos: usize, x: &[Rep], best: &BTreeSet<Vec<Rep>>) -> bool {
+    let grm = &b.grm;
+    let xs = search_semantics_configs(b, st, toks, cfg, pos, x);
+    let x_del = matches!(x.last(), Some(Rep::Delete(_)));
+    for m in best {
+        let Ok((mp, mc)) = replay_seq(b, st, toks, cfg, pos, m) else { continue };
+        let m_del = matches!(m.last(), Some(Rep::Delete(_)));
+        for (xc, xp) in &xs {
+            // compare after j = 0, 1, 2 common shifts
+            let (mut a, mut ap, mut c, mut cp) = (xc.clone(), *xp, mc.clone(), mp);
+            for j in 0..3 {
+                if a.stack == c.stack && ap == cp && (j > 0 || x_del == m_del) {
+                    return true;
+                }
+                if ap >= toks.len() || cp >= toks.len() {
+                    break;
+                }
+                if a.feed(grm, st, toks[ap]) != Step::Shifted || c.feed(grm, st, toks[cp]) != Step::Shifted {
+                    break;
+                }
+                ap += 1;
+                cp += 1;
+            }
+        }
+    }
+    false
+}
+
 pub struct ReplayStats {
     pub errors: u64,
     pub sequences_validated: u64,
